@@ -100,7 +100,9 @@ func dedupLoop(configArgs map[string]string, w *fsnotify.Watcher, completedChann
 		defer regenerateMutex.Unlock()
 
 		dirsToWatch := generateInWatchMode(configArgs)
-		if dirsToWatch != nil && len(dirsToWatch) > len(w.WatchList()) {
+		// Adding a directory that is already watched is a no-op. (Comparing the number of referenced packages with
+		// the length of the watch list, which also holds ".", skipped a package's only import.)
+		if dirsToWatch != nil {
 			for _, dir := range dirsToWatch {
 				if err := w.Add(dir); err != nil {
 					completedChannel <- err
